@@ -195,6 +195,9 @@ def unit():
              'Except Prod (Opt TI) JObj', state=['rec'], doc='the result and `rec` after the call'),
         # --- the importers
         Inst('GeoPoint.from_geojson', 'pointFromGeoJson', IMPORT_PARAMS, 'Except ShapeT'),
+        Inst('GeoLineString.from_geojson', 'lineFromGeoJson', IMPORT_PARAMS, 'Except ShapeT'),
+        Inst('MultiGeoPoint.from_geojson', 'mpointFromGeoJson', IMPORT_PARAMS, 'Except ShapeT'),
+        Inst('MultiGeoLineString.from_geojson', 'mlineFromGeoJson', IMPORT_PARAMS, 'Except ShapeT'),
     ]
     METHODS = {}
     for i in insts:
@@ -374,7 +377,27 @@ def unit():
             return Val(f'(PointS.mk {x.text})', 'GjPoint')
         return shape_of(tr, f'(GV.GeoJson.SGeom.point {x.text})', kws)
 
-    CTORS = {'GeoPoint': ctor_shape(point_ctor)}
+    def line_ctor(tr, e, x, kws):
+        if x.typ != 'List Pos' or 'holes' in kws:
+            raise Unsupported(f'GeoLineString({x.typ})')
+        if not kws:
+            return Val(f'(LineS.mk {x.text})', 'GjLine')
+        return shape_of(tr, f'(GV.GeoJson.SGeom.line {x.text})', kws)
+
+    def mpoint_ctor(tr, e, x, kws):
+        if x.typ != 'List GjPoint' or set(kws) != {'dt', 'properties'}:
+            raise Unsupported(f'MultiGeoPoint({x.typ})')
+        m = tr.gensym('m')
+        return shape_of(tr, f'(GV.GeoJson.SGeom.mpoint (({x.text}).map (fun {m} => {m}.coordinate)))', kws)
+
+    def mline_ctor(tr, e, x, kws):
+        if x.typ != 'List GjLine' or set(kws) != {'dt', 'properties'}:
+            raise Unsupported(f'MultiGeoLineString({x.typ})')
+        m = tr.gensym('m')
+        return shape_of(tr, f'(GV.GeoJson.SGeom.mline (({x.text}).map (fun {m} => {m}.vertices)))', kws)
+
+    CTORS = {'GeoPoint': ctor_shape(point_ctor), 'GeoLineString': ctor_shape(line_ctor), 'MultiGeoPoint': ctor_shape(mpoint_ctor),
+             'MultiGeoLineString': ctor_shape(mline_ctor)}
 
     def j_default(node):
         if node is None or (isinstance(node, ast.Constant) and node.value is None):
